@@ -1,7 +1,7 @@
-(* C01 -- statements only; see DESIGN.md section 6 C01.  Theorems are added as the proofs land;
-   the witnesses below are evaluated in the kernel on the whole-parser model. *)
+(* C01 -- parsing and rendering never panic, abort or hang.  Statements only; proofs in
+   proofs/{BlockProofs,InlineProofs,RegexProofs,CoreProofs,RenderProofs}.v; see DESIGN.md section 6 C01. *)
 From Coq Require Import String.
-From MdIt Require Import Prims Tables Tree Render Core Dump Dispatch.
+From MdIt Require Import Prims Tables Tree Render Block Inline Core Dump Dispatch BlockProofs InlineProofs CoreProofs.
 Local Open Scope string_scope.
 Local Open Scope list_scope.
 Local Open Scope N_scope.
@@ -17,3 +17,57 @@ Definition html_of (cfg src : string) : str :=
 Example C01_witness_bracket_backtick : html_of "CsW" "[`" = bs "<p>[`</p>
 ".
 Proof. vm_compute. reflexivity. Qed.
+
+(* FULL STATEMENT: for every parser m built from the shipped plugins and every UTF-8 text src,
+     snd (parse (default_fuel m) m src) = inr d   and   render x (d_root d) = inr html.
+   The model returns inl (Panic k) where the implementation would panic, inl Hang where one of
+   its unbounded `while` loops would not make progress, and inl OutOfFuel where the recursion
+   would go deeper than 2 * max_nesting + 10.
+
+   PROVED (this file): the Hang and OutOfFuel outcomes are impossible -- for EVERY parser object
+   (any rule chain in any order, shipped or not, any cache state, any nesting limit) and every byte
+   string.  NOT PROVED: absence of Panic (index, slice, unwrap, overflow, assertion); it is decided on every
+   run by the model/implementation correspondence and the no-panic oracle on generated documents. *)
+
+Definition terminates {A} (r : res A) : Prop := r <> inl Hang /\ r <> inl OutOfFuel.
+
+Lemma benign_terminates {A} (r : res A) : benign r -> terminates r.
+Proof. destruct r as [[k| |]|x]; cbn; intros H; try contradiction; split; discriminate. Qed.
+
+(* 1. the whole parser *)
+Theorem C01_parse_terminates : forall m src, terminates (snd (parse (default_fuel m) m src)).
+Proof. intros m src. apply benign_terminates. exact (parse_terminates m src). Qed.
+
+(* 2. the two engines, for any chain of rules and any state: the block tokenizer's line loop,
+      the list-item loop, the inline tokenizer's position loop and the link-label scanner always advance *)
+Theorem C01_block_never_hangs : forall fuel cfg st, btokenize fuel cfg st <> inl Hang.
+Proof. exact btokenize_never_hangs. Qed.
+Theorem C01_inline_never_hangs : forall fuel cfg st, cache_ok st -> itokenize fuel cfg st <> inl Hang.
+Proof. exact itokenize_never_hangs. Qed.
+
+(* 3. what makes the inline loop advance: a rule that reports a match reports a positive length
+      (or, for links, an end beyond the start), and skip_token always moves forward *)
+Theorem C01_rule_progress : forall cfg TK SK LT LS,
+  (forall st, cache_ok st -> gspec (condT cfg LT (i_level st)) cache_ok (TK st)) ->
+  (forall st, cache_ok st -> (i_pos st < i_max st) -> gspec (condS cfg LS (i_level st)) (spost_i st) (SK st)) ->
+  forall c r st silent, cache_ok st -> rcond cfg LT LS c silent (i_level st) ->
+  gspec c (ipost st) (run_rule cfg TK SK r st silent).
+Proof. exact run_rule_spec. Qed.
+
+(* 4. rendering has no loop and no recursion budget of its own (it may still panic on a node kind
+      that has no renderer, e.g. an inline root left behind by a parser without the inline rule) *)
+Theorem C01_render_terminates : forall xhtml n, terminates (render xhtml n).
+Proof. intros xhtml n. apply benign_terminates. exact (render_benign xhtml n). Qed.
+
+(* non-vacuity: a document exercising both loops parses to a value *)
+Example C01_nonvacuous :
+  let m := build_md (bs "CsW") 100 in
+  is_ok (snd (parse (default_fuel m) m (bs "- > [a *b* `c`](</u> 't')
+  1. <b>x</b>"))) = true.
+Proof. vm_compute. reflexivity. Qed.
+
+Print Assumptions C01_parse_terminates.
+Print Assumptions C01_block_never_hangs.
+Print Assumptions C01_inline_never_hangs.
+Print Assumptions C01_rule_progress.
+Print Assumptions C01_render_terminates.
